@@ -98,6 +98,19 @@ int main() {}
         obs.append(Ob(id='C06.static.identity-from-%s' % R1, prop='C06', group='C06.static', prelude='', wrappers=[], inputs=[], body=src, kind='S',
                       contract='static fact: Quantity<Meters, R2> is implicitly constructible from Quantity<Meters, %s> for every integral and floating R2 (k = 1 between integral reps)' % G.ctype(R1),
                       functions_under_contract=('au::ConstructionPolicy::PermitImplicitFrom (compile-time)', 'au::detail::PermitAsCarveOutForIntegerPromotion')))
+    # the documented threshold (2147 * k <= max(Rep)) at its exact boundary for every 64-bit integer TYPE (unsigned long long / long long are distinct from the <cstdint> aliases on LP64)
+    WL = []
+    for (T_, mx_) in (('unsigned long long', 2**64 - 1), ('unsigned long', 2**64 - 1), ('long long', 2**63 - 1), ('long', 2**63 - 1)):
+        nok = mx_ // 2147
+        tg = T_.replace(' ', '_')
+        WL.append('struct VOk_%s : decltype(au::Meters{} * au::mag<%dULL>()) {};\nstruct VBad_%s : decltype(au::Meters{} * au::mag<%dULL>()) {};' % (tg, nok, tg, nok + 1))
+        WL.append('VF_STATIC_FACT((std::is_convertible<au::Quantity<VOk_%s, %s>, au::Quantity<au::Meters, %s>>::value) == true);' % (tg, T_, T_))
+        WL.append('VF_STATIC_FACT((std::is_convertible<au::Quantity<VBad_%s, %s>, au::Quantity<au::Meters, %s>>::value) == false);' % (tg, T_, T_))
+        WL.append('VF_STATIC_FACT((std::is_convertible<au::Quantity<au::Meters, %s>, au::Quantity<VOk_%s, %s>>::value) == false);' % (T_, tg, T_))
+    obs.append(Ob(id='C06.static.threshold-every-64-bit-integer-type', prop='C06', group='C06.static', prelude='', wrappers=[], inputs=[], kind='S',
+                  body='#include <type_traits>\n#include "au/au.hh"\n#include "au/units/meters.hh"\n#define VF_STATIC_FACT(c) static_assert(c, "VF_STATIC_FACT")\n' + '\n'.join(WL) + '\nint main() {}\n',
+                  contract='static facts: for Rep in {unsigned long long, unsigned long, long long, long} the implicit conversion by an integer factor k is permitted for k = floor(max(Rep) / 2147) and refused for k + 1 (documented formula at its exact boundary), and the inverse direction is refused',
+                  functions_under_contract=('au::ConstructionPolicy::PermitImplicitFrom (compile-time)', 'au::detail::CanScaleThresholdWithoutOverflow')))
     # totality at the edges of the magnitude / rep space: ratios above the range of double, and bool as a rep (the question must be answerable, never a hard error)
     TH = ('#include <type_traits>\n#include "au/au.hh"\n#include "au/units/meters.hh"\nusing namespace au;\n#define VF_STATIC_FACT(c) static_assert(c, "VF_STATIC_FACT")\n'
           'struct VBig : decltype(Meters{} * pow<400>(mag<10>())) {};\nstruct VTiny : decltype(Meters{} / pow<400>(mag<10>())) {};\nstruct VKilo : decltype(Meters{} * mag<1000>()) {};\n'
